@@ -19,9 +19,9 @@ def replay(job):
     names = ["a%d.txt" % k for k in range(1, n + 1)]
     # a third of the projects configure their files through globs that match exactly one file each (a removed file then is an unmatched glob)
     keys = [("a%d.tx?" % (k + 1)) if seed % 3 == 0 else names[k] for k in range(n)]
-    # in a quarter of the v2 projects the LAST file carries partial patterns only, which this bump (same year) leaves unchanged: it still has to be found and matched
-    partial_last = case["engine"] == "v2" and seed % 4 == 1
-    PART = (["(c) YYYY", "since YYYY -", "year=YYYY"], ["(c) 2021", "since 2021 -", "year=2021"], ["(c) ", "since ", "year="])
+    # in a quarter of the projects (both engines) the LAST file carries partial patterns only, which this bump (same year) leaves unchanged: it still has to be found and matched
+    partial_last = seed % 4 == 1
+    PART = ((["(c) YYYY", "since YYYY -", "year=YYYY"] if case["engine"] == "v2" else ["(c) {year}", "since {year} -", "year={year}"]), ["(c) 2021", "since 2021 -", "year=2021"], ["(c) ", "since ", "year="])
     raws_of = lambda k: (PART[0] if (partial_last and k == n - 1) else RAWS)[:case["pats"][k]]
     entries = [(keys[k], raws_of(k)) for k in range(n)]
     cfg_pos = rng.randrange(0, n + 1)
